@@ -2,7 +2,7 @@
 
    The shape follows Replacement::build / ReplacementArray::build / TestArray::build / TestOrReplacements::build
    (src/speech.rs) and TTS::build (src/tts.rs):
-     item  = t / ct / ot (a literal, empty or not) | x | a TTS command (spell / pronounce speak by themselves; the others
+     item  = t / ct / ot (a literal, empty or not, with its number in a table of literals) | x | a TTS command (spell / pronounce speak by themselves; the others
              wrap an optional replace: body) | intent (children) | test | with (replace) | set_variables |
              insert (nodes, replace) | translate | something the engine rejects
      test  = a list of entries; an entry has a condition (if / else_if) or none, a then part and an optional else part;
@@ -18,7 +18,7 @@ From MC Require Import Lib.Base.
 Local Open Scope N_scope.
 
 Inductive item :=
-| IText (nonempty : bool)
+| IText (nonempty : bool) (lit : N)
 | IX
 | ITts (speaks : bool) (body : items)
 | IIntent (body : items)
@@ -54,13 +54,14 @@ Definition ev_bad : N := 0.
 Definition ev_entry : N := 20.      (* a test entry is visited *)
 Definition ev_true : N := 21.       (* ... and its condition holds *)
 Definition ev_nodes (k : N) : N := 100 + k.
+Definition ev_lit (id : N) : N := 1000000 + id.      (* which literal a text item says (its number in the tie's table of literals) *)
 Definition norm_ev (e : N) : N := if e =? ev_text0 then ev_text else if e =? ev_tts_sp then ev_tts else e.
 
 Definition next (s : list N) : N * list N := match s with o :: s' => (o, s') | [] => (0, []) end.
 
 Fixpoint tr_item (i : item) (s : list N) {struct i} : list N * list N :=
   match i with
-  | IText b => ([if b then ev_text else ev_text0], s)
+  | IText b id => ([if b then ev_text else ev_text0; ev_lit id], s)
   | IX => ([ev_x], s)
   | ITts sp body => let (e, s1) := tr_items body s in ((if sp then ev_tts_sp else ev_tts) :: e, s1)
   | IIntent body => let (e, s1) := tr_items body s in (ev_intent :: e, s1)
@@ -110,7 +111,7 @@ Definition spoken (es : list N) : nat := List.length (filter speaking es).
 (* speaks under every outcome: some item of the list does; a test does when the part chosen does, whichever it is *)
 Fixpoint speaksb (i : item) : bool :=
   match i with
-  | IText b => b
+  | IText b _ => b
   | IX => true
   | ITts sp body => sp || speaks_items body
   | IIntent body => speaks_items body
